@@ -17,6 +17,8 @@ def _host(h, k):
         from vmc.props.c07 import folded_host
 
         return folded_host(int(h[1:]), k)
+    if h in ('ORI0', 'ORI1'):
+        return arith.oriented_host(k, h == 'ORI1')
     if h == 'SATW':
         return arith.saturated_host(k, wide=True)
     if h == 'DEC':
@@ -29,8 +31,9 @@ def _hosts(k, which=('H0', 'H1')):
         c, ops = _host(h, k)
         yield h, c, ops
     if which == ('H0', 'H1') and 2 <= k <= 4:
-        # hosts that already hold the gates a generator is about to create / n-ary decoys containing their operands
-        for h in ('SATW', 'DEC'):
+        # hosts that already hold the gates a generator is about to create / n-ary decoys containing their operands /
+        # the asymmetric gates in one orientation only
+        for h in ('SATW', 'DEC', 'ORI0', 'ORI1'):
             c, ops = _host(h, k)
             yield h, c, ops
 
@@ -549,6 +552,8 @@ def plan(tier):
         t.append({'kind': 'gen', 'which': 'sqrt', 'n': n})
     for n in range(1, (7 if q else 8) + 1):
         t.append({'kind': 'gen', 'which': 'div_mod', 'n': n})
+    for inp, out in ((3, 700), (5, 1500), (8, 3000)) if q else ((3, 700), (4, 990), (4, 1010), (5, 1500), (8, 3000), (10, 7000)):
+        t.append({'kind': 'pluswide', 'inp': inp, 'out': out})
     for w in (257, 300) if q else (255, 256, 257, 258, 300, 513):
         t.append({'kind': 'subwide', 'w': w})
     for n in (40,) if q else (40, 130):
@@ -560,7 +565,7 @@ def plan(tier):
 
 def describe(tier):
     return {
-        'rule': 'gen: generate_sqrt n<=16 (18) and generate_div_mod n<=7 (8), ALL operand values; subwide/divwide: subtraction at widths 257/300 (thorough 255..513) equal and off by one, div_mod at 40 (130) bits, operands driven by a 12-input folded host, all 4096 host assignments; hosts SATW/DEC (every two-operand gate over the operand bits already present / n-ary decoys only) for <= 4 operand bits; sub: generate/add_sub_two_numbers and add_subtract_with_compare for all width pairs x endianness x hosts (H0 inputs, H1 '
+        'rule': 'pluswide: add_plus_one / generate_plus_one with result widths 700..3000 (7000), all operand values; hosts ORI0/ORI1 (every asymmetric gate over every operand pair in one orientation only); gen: generate_sqrt n<=16 (18) and generate_div_mod n<=7 (8), ALL operand values; subwide/divwide: subtraction at widths 257/300 (thorough 255..513) equal and off by one, div_mod at 40 (130) bits, operands driven by a 12-input folded host, all 4096 host assignments; hosts SATW/DEC (every two-operand gate over the operand bits already present / n-ary decoys only) for <= 4 operand bits; sub: generate/add_sub_two_numbers and add_subtract_with_compare for all width pairs x endianness x hosts (H0 inputs, H1 '
         'non-input operands, and the live input list of the host as operand a); div_mod (incl. b=0), sqrt (odd and even n), equality gadget (every constant 0..2^(n+1); widths 12..100(200) over a stated alphabet: 10 constants around 0 / 2^(w-1) / 2^w x operand values {constant, every single-bit flip of it, 0, all ones}), plus-one '
         '(inp x out x endianness x add_outputs x result_labels given/omitted x H0/H1/H2), if-then-else and pairwise gadgets on a '
         'host with existing gates/outputs/blocks over every operand tuple incl. internal gates and repeats; all operand values; every generate_* is called, its result edited, and called again (fresh circuit each time). '
@@ -679,6 +684,12 @@ def run_task(task, acc):
         acc.sample({'fn': 'add_equal', 'n': n, 'num': 1 << n, 'host': 'H0'})
     elif k == 'equalwide':
         check_equal_wide(acc, task['n'])
+    elif k == 'pluswide':
+        for be in (False, True):
+            check_generate_plus_one(acc, task['inp'], task['out'], be)
+            for add_outputs in (False, True):
+                for htag, c, ops in _hosts(task['inp'], ('H1',)):
+                    check_plus_one(acc, task['inp'], task['out'], be, add_outputs, False, htag, c, ops)
     elif k == 'gen':
         for be in (False, True):
             check_generate_wrappers(acc, task['which'], task['n'], be)
